@@ -31,7 +31,8 @@ Z = 6.0
 def build_target(cell):
     d = cell["d"]
     f0 = cell["factor"]
-    facs = [f0] + [["gauss", 0.5, 0.2]] * (d - 1)
+    # companion coordinates are hard and abut the upper face, so that mixed-boundary handling is exercised too
+    facs = [f0] + [cell.get("companion", ["gauss", 0.5, 0.2])] * (d - 1)
     return T.Target(dict(d=d, lo=[0.0] * d, hi=[1.0] * d, comps=[dict(w=1.0, factors=facs)]))
 
 
@@ -172,7 +173,7 @@ def run_case(cell):
                                f"after the mutate stage {zmax[0]}[coord {zmax[1]}, q={zmax[2]}] is off by z={zmax[3]:+.1f} (threshold {thr:.1f}); acceptance {acc:.2f}",
                                keys=dict(kernel=cell["kernel"], boundary=btype, d_gt1=bool(d > 1), assignment=assign)))
     return dict(violations=violations, stats=dict(walkers=cell["M"], stages=1 if d == 1 else cell["calls"]), probes={}, digest=json.dumps([round(z[3], 6) for z in zs][:4]),
-                distinct_key=json.dumps({k: cell.get(k) for k in ("kernel", "boundary", "factor", "beta", "d", "K", "nu", "sigma", "mean_outside", "assign")}, sort_keys=True),
+                distinct_key=json.dumps({k: cell.get(k) for k in ("kernel", "boundary", "factor", "beta", "d", "K", "nu", "sigma", "mean_outside", "assign", "companion")}, sort_keys=True),
                 nontrivial=0.02 < acc < 0.98, zmax=abs(zmax[3]) / thr * Z, cellkey=f"{cell['kernel']}/{btype}" + ("/assign-by-position" if assign == "position" else ""),
                 sample=dict(cell={k: cell[k] for k in ("kernel", "boundary", "factor", "beta", "d", "K", "nu", "sigma")}, acceptance=round(acc, 3), max_abs_z=round(abs(zmax[3]), 2), statistic=zmax[:3]))
 
@@ -188,10 +189,12 @@ def cases(seed, tier):
     for k in range(n):
         r = random.Random(sch.np_seed(f"c03.{k}"))
         kernel, boundary, factor = combos[k % len(combos)]
-        d = 1 if (tier == "quick" and k < 32) or r.random() < 0.6 else r.choice([2, 3])
+        d = 1 if (tier == "quick" and k < 24) or (tier != "quick" and r.random() < 0.5) else r.choice([2, 2, 3])
         cell = dict(kernel=kernel, boundary=boundary, factor=factor, beta=r.choice([0.1, 0.5, 1.0]), d=d, K=r.choice([1, 1, 2]), nu=r.choice([1.0, 5.0, 1e6]),
                     mean_outside=r.random() < 0.25, scale=r.choice([0.1, 0.3, 1.0]), sigma=r.choice([None, None, 0.2, 0.5, 0.9]), ms_seed=r.randrange(2**31), seed=sch.np_seed(f"c03s.{k}") % (2**31),
                     M=100000 if tier == "quick" else 200000, calls=40)
+        if d > 1:
+            cell["companion"] = r.choice([["gauss", 0.5, 0.2], ["gauss", 0.9, 0.25], ["expo", 4.0], ["gauss", 0.05, 0.3]])
         if k % 8 == 7 or (tier != "quick" and r.random() < 0.15):
             # labels that depend on the particle's position (as produced by clusterer.predict in the resampling stage), two different modes
             cell.update(K=2, assign="position", split=r.choice([0.2, 0.3, 0.5]), boundary="hard-abutting" if boundary.startswith("hard") else boundary, mean_outside=False)
